@@ -1287,34 +1287,51 @@ impl LineBuf {
 		}
 	}
 	pub fn text_obj_word(&mut self, count: usize, bound: Bound, word: Word) -> Option<(usize,usize)> {
-		match bound {
-			Bound::Inside => {
-				let start = if self.is_word_bound(self.cursor.get(), word, Direction::Backward) {
-					self.cursor.get()
-				} else {
-					self.start_of_word_backward(self.cursor.get(), word)
-				};
-				let end = if self.is_word_bound(self.cursor.get(), word, Direction::Forward) {
-					self.cursor.get()
-				} else {
-					self.end_of_word_forward(self.cursor.get(), word)
-				};
-				Some((start,end))
+		// Words and the blanks between them, within the cursor's line. 'iw' takes one such item per count;
+		// 'aw' takes a word together with the blanks after it (before it, when there are none after)
+		let (line_start,mut line_end) = self.this_line();
+		if line_end > line_start && self.grapheme_at(line_end - 1) == Some("\n") {
+			line_end -= 1;
+		}
+		let cursor = self.cursor.get();
+		if cursor >= line_end {
+			// An empty line
+			return None
+		}
+		let class = self.word_class(cursor, word);
+		let mut start = cursor;
+		while start > line_start && self.word_class(start - 1, word) == class {
+			start -= 1;
+		}
+		// 'end' is exclusive while we collect
+		let mut end = cursor;
+		let mut items = 0;
+		let wanted = match bound {
+			Bound::Inside => count.max(1),
+			Bound::Around => count.max(1) * 2,
+		};
+		let started_on_blank = class == 0;
+		while items < wanted && end < line_end {
+			let item_class = self.word_class(end, word);
+			while end < line_end && self.word_class(end, word) == item_class {
+				end += 1;
 			}
-			Bound::Around => {
-				let start = if self.is_word_bound(self.cursor.get(), word, Direction::Backward) {
-					self.cursor.get()
-				} else {
-					self.start_of_word_backward(self.cursor.get(), word)
-				};
-				let end = if self.is_word_bound(self.cursor.get(), word, Direction::Forward) {
-					self.cursor.get()
-				} else {
-					self.end_of_word_forward(self.cursor.get(), word)
-				};
-				Some((start,end))
+			items += 1;
+		}
+		if let Bound::Around = bound {
+			// Blanks then word, or word then blanks; a word at the end of the line takes the blanks before it instead
+			let ends_with_blank = end > start && self.word_class(end - 1, word) == 0;
+			if !started_on_blank && !ends_with_blank {
+				while start > line_start && self.word_class(start - 1, word) == 0 {
+					start -= 1;
+				}
+			}
+			if started_on_blank && items < wanted {
+				// Blanks at the end of the line have no word to go with
+				return None
 			}
 		}
+		Some((start,end.saturating_sub(1).max(start)))
 	}
 	/// Get the span of the current `sentence`
 	///
@@ -1823,350 +1840,171 @@ impl LineBuf {
 		}
 		pos.get()
 	}
-	pub fn start_of_word_forward(&mut self, mut pos: usize, word: Word, include_last_char: bool) -> usize {
-		let default = self.grapheme_indices().len();
-		let mut indices_iter = (pos..self.cursor.max).peekable();
-
-		match word {
-			Word::Big => {
-				let Some(next) = indices_iter.peek() else {
-					return default
-				};
-				let on_boundary = self.grapheme_at(*next).is_none_or(is_whitespace);
-				if on_boundary {
-					let Some(idx) = indices_iter.next() else { return default };
-					// We have a 'cw' call, do not include the trailing whitespace
-					if include_last_char {
-						return idx;
-					} else {
-						pos = idx;
-					}
-				}
-
-				// Check current grapheme
-				let Some(cur_char) = self.grapheme_at(pos).map(|c| c.to_string()) else {
-					return default
-				};
-				let on_whitespace = is_whitespace(&cur_char);
-
-				// Find the next whitespace
-				if !on_whitespace {
-					let Some(ws_pos) = indices_iter.find(|i| self.grapheme_at(*i).is_some_and(is_whitespace)) else {
-						return default
-					};
-					if include_last_char {
-						return ws_pos
-					}
-				}
-
-				// Return the next visible grapheme position
-				indices_iter.find(|i| self.grapheme_at(*i).is_some_and(|c| !is_whitespace(c))).unwrap_or(default)
-			}
-			Word::Normal => {
-				let Some(cur_char) = self.grapheme_at(pos).map(|c| c.to_string()) else { return default };
-				let Some(next_idx) = indices_iter.peek() else { return default };
-				let on_boundary = !is_whitespace(&cur_char) && self.grapheme_at(*next_idx).is_none_or(|c| is_other_class_or_is_ws(c, &cur_char));
-				if on_boundary {
-					if include_last_char {
-						return *next_idx
-					} else {
-						pos = *next_idx;
-					}
-				}
-
-				let Some(next_char) = self.grapheme_at(pos).map(|c| c.to_string()) else {
-					return default
-				};
-				if is_other_class_not_ws(&cur_char, &next_char) {
-					return pos
-				}
-				let on_whitespace = is_whitespace(&cur_char);
-
-				// Advance until hitting whitespace or a different character class
-				if !on_whitespace {
-					let other_class_pos = indices_iter.find(
-						|i| {
-							self.grapheme_at(*i)
-								.is_some_and(|c| is_other_class_or_is_ws(c, &next_char))
-						}
-					);
-					let Some(other_class_pos) = other_class_pos else {
-						return default
-					};
-					// If we hit a different character class, we return here
-					if self.grapheme_at(other_class_pos).is_some_and(|c| !is_whitespace(c)) || include_last_char {
-						return other_class_pos
-					}
-				}
-
-				// We are now certainly on a whitespace character. Advance until a non-whitespace character.
-				indices_iter.find(
-					|i| {
-						self.grapheme_at(*i)
-							.is_some_and(|c| !is_whitespace(c))
-					}
-				).unwrap_or(default)
-			}
+	/// The class of the character at `pos` for word motions: 0 for blanks (and line breaks), then one class per kind of word
+	fn word_class(&mut self, pos: usize, word: Word) -> u8 {
+		let Some(gr) = self.grapheme_at(pos) else { return 0 };
+		match CharClass::from(gr) {
+			CharClass::Whitespace => 0,
+			_ if word == Word::Big => 1,
+			CharClass::Alphanum => 2,
+			_ => 1,
 		}
 	}
-
-	pub fn end_of_word_backward(&mut self, mut pos: usize, word: Word, include_last_char: bool) -> usize {
-		let default = self.grapheme_indices().len();
-		let mut indices_iter = (0..pos).rev().peekable();
-
-		match word {
-			Word::Big => {
-				let Some(next) = indices_iter.peek() else {
-					return default
-				};
-				let on_boundary = self.grapheme_at(*next).is_none_or(is_whitespace);
-				if on_boundary {
-					let Some(idx) = indices_iter.next() else { return default };
-					// We have a 'cw' call, do not include the trailing whitespace
-					if include_last_char {
-						return idx;
-					} else {
-						pos = idx;
-					}
-				}
-
-				// Check current grapheme
-				let Some(cur_char) = self.grapheme_at(pos).map(|c| c.to_string()) else {
-					return default
-				};
-				let on_whitespace = is_whitespace(&cur_char);
-
-				// Find the next whitespace
-				if !on_whitespace {
-					let Some(ws_pos) = indices_iter.find(|i| self.grapheme_at(*i).is_some_and(is_whitespace)) else {
-						return default
-					};
-					if include_last_char {
-						return ws_pos
-					}
-				}
-
-				// Return the next visible grapheme position
-
-				indices_iter.find(|i| self.grapheme_at(*i).is_some_and(|c| !is_whitespace(c))).unwrap_or(default)
-			}
-			Word::Normal => {
-				let Some(cur_char) = self.grapheme_at(pos).map(|c| c.to_string()) else { return default };
-				let Some(next_idx) = indices_iter.peek() else { return default };
-				let on_boundary = !is_whitespace(&cur_char) && self.grapheme_at(*next_idx).is_none_or(|c| is_other_class_or_is_ws(c, &cur_char));
-				if on_boundary {
-					if include_last_char {
-						return *next_idx
-					} else {
-						pos = *next_idx;
-					}
-				}
-
-				let Some(next_char) = self.grapheme_at(pos).map(|c| c.to_string()) else {
-					return default
-				};
-				if is_other_class_not_ws(&cur_char, &next_char) {
-					return pos
-				}
-				let on_whitespace = is_whitespace(&cur_char);
-
-				// Advance until hitting whitespace or a different character class
-				if !on_whitespace {
-					let other_class_pos = indices_iter.find(
-						|i| {
-							self.grapheme_at(*i)
-								.is_some_and(|c| is_other_class_or_is_ws(c, &next_char))
-						}
-					);
-					let Some(other_class_pos) = other_class_pos else {
-						return default
-					};
-					// If we hit a different character class, we return here
-					if self.grapheme_at(other_class_pos).is_some_and(|c| !is_whitespace(c)) || include_last_char {
-						return other_class_pos
-					}
-				}
-
-				// We are now certainly on a whitespace character. Advance until a non-whitespace character.
-
-				indices_iter.find(
-					|i| {
-						self.grapheme_at(*i)
-							.is_some_and(|c| !is_whitespace(c))
-					}
-				).unwrap_or(default)
-			}
-		}
+	/// An empty line counts as a word: it is where `w`, `b` and `ge` stop. Its position is that of its line break.
+	fn is_empty_line_at(&mut self, pos: usize) -> bool {
+		self.grapheme_at(pos) == Some("\n") && (pos == 0 || self.grapheme_at(pos - 1) == Some("\n"))
 	}
-	pub fn end_of_word_forward(&mut self, mut pos: usize, word: Word) -> usize {
-		let default = self.cursor.max;
-		if pos >= default {
-			return default
+	/// One position forward as the cursor sees the text: the line break of a non-empty line is not a position.
+	/// Returns the length of the buffer when there is nothing further.
+	fn word_step_forward(&mut self, pos: usize) -> usize {
+		let max = self.cursor.max;
+		let next = pos + 1;
+		if next < max && self.grapheme_at(next) == Some("\n") && !self.is_empty_line_at(next) {
+			return (next + 1).min(max)
 		}
-		let mut fwd_indices = (pos + 1..default).peekable();
-
-		match word {
-			Word::Big => {
-				let Some(cur_char) = self.grapheme_at(pos).map(|c| c.to_string()) else { return default };
-				let Some(next_idx) = fwd_indices.peek() else { return default };
-				let on_boundary = !is_whitespace(&cur_char) && self.grapheme_at(*next_idx).is_none_or(is_whitespace);
-				if on_boundary {
-					let Some(idx) = fwd_indices.next() else { return default };
-					pos = idx;
-				}
-				// Check current grapheme
-				let Some(cur_char) = self.grapheme_at(pos).map(|c| c.to_string()) else {
-					return default
-				};
-				let on_whitespace = is_whitespace(&cur_char);
-
-				// Advance iterator to next visible grapheme
-				if on_whitespace {
-					let Some(_non_ws_pos) = fwd_indices.find(|i| self.grapheme_at(*i).is_some_and(|c| !is_whitespace(c))) else {
-						return default
-					};
-				}
-
-				// The position of the next whitespace will tell us where the end (or start) of the word is
-				let Some(next_ws_pos) = fwd_indices.find(|i| self.grapheme_at(*i).is_some_and(is_whitespace)) else {
-					return default
-				};
-				pos = next_ws_pos;
-
-				if pos == self.grapheme_indices().len() {
-					// We reached the end of the buffer
-					pos
-				} else {
-					// We hit some whitespace, so we will go back one
-					pos.saturating_sub(1)
-				}
-			}
-			Word::Normal => {
-				let Some(cur_char) = self.grapheme_at(pos).map(|c| c.to_string()) else { return default };
-				let Some(next_idx) = fwd_indices.peek() else { return default };
-				let on_boundary = !is_whitespace(&cur_char) && self.grapheme_at(*next_idx).is_none_or(|c| is_other_class_or_is_ws(c, &cur_char));
-				if on_boundary {
-					let next_idx = fwd_indices.next().unwrap();
-					pos = next_idx
-				}
-
-				// Check current grapheme
-				let Some(cur_char) = self.grapheme_at(pos).map(|c| c.to_string()) else {
-					return default
-				};
-				let on_whitespace = is_whitespace(&cur_char);
-
-				// Proceed to next visible grapheme
-				if on_whitespace {
-					let Some(non_ws_pos) = fwd_indices.find(|i| self.grapheme_at(*i).is_some_and(|c| !is_whitespace(c))) else {
-						return default
-					};
-					pos = non_ws_pos
-				}
-
-				let Some(cur_char) = self.grapheme_at(pos).map(|c| c.to_string()) else {
-					return self.grapheme_indices().len()
-				};
-				// The position of the next differing character class will tell us where the start of the word is
-				let Some(next_ws_pos) = fwd_indices.find(|i| self.grapheme_at(*i).is_some_and(|c| is_other_class_or_is_ws(c, &cur_char))) else {
-					return default
-				};
-				pos = next_ws_pos;
-
-				if pos == self.grapheme_indices().len() {
-					// We reached the end of the buffer
-					pos
-				} else {
-					// We hit some other character class, so we go back one
-					pos.saturating_sub(1)
-				}
-			}
-		}
+		next.min(max)
 	}
-	pub fn start_of_word_backward(&mut self, mut pos: usize, word: Word) -> usize {
-		let default = 0;
-
-		let mut indices_iter = (0..pos).rev().peekable();
-
-		match word {
-			Word::Big => {
-				let on_boundary = 'bound_check: {
-					let Some(next_idx) = indices_iter.peek() else { break 'bound_check false };
-					self.grapheme_at(*next_idx).is_none_or(is_whitespace)
-				};
-				if on_boundary {
-					let Some(idx) = indices_iter.next() else { return default };
-					pos = idx;
-				}
-				// Check current grapheme
-				let Some(cur_char) = self.grapheme_at(pos).map(|c| c.to_string()) else {
-					return default
-				};
-				let on_whitespace = is_whitespace(&cur_char);
-
-				// Advance iterator to next visible grapheme
-				if on_whitespace {
-					let Some(_non_ws_pos) = indices_iter.find(|i| self.grapheme_at(*i).is_some_and(|c| !is_whitespace(c))) else {
-						return default
-					};
-				}
-
-				// The position of the next whitespace will tell us where the end (or start) of the word is
-				let Some(next_ws_pos) = indices_iter.find(|i| self.grapheme_at(*i).is_some_and(is_whitespace)) else {
-					return default
-				};
-				pos = next_ws_pos;
-
-				if pos == self.grapheme_indices().len() {
-					// We reached the end of the buffer
-					pos
-				} else {
-					// We hit some whitespace, so we will go back one
-					pos + 1
+	/// One position backward as the cursor sees the text; `None` at the start of the buffer
+	fn word_step_backward(&mut self, pos: usize) -> Option<usize> {
+		let prev = pos.checked_sub(1)?;
+		if self.grapheme_at(prev) == Some("\n") && !self.is_empty_line_at(prev) {
+			return prev.checked_sub(1)
+		}
+		Some(prev)
+	}
+	/// `w` / `W`: the start of the next word. An empty line is a word.
+	///
+	/// With `include_last_char` (the `cw` special case) a position inside a word gives the position just
+	/// after that word instead, like `ce`.
+	/// Returns the length of the buffer when the text ends first.
+	pub fn start_of_word_forward(&mut self, pos: usize, word: Word, include_last_char: bool) -> usize {
+		let max = self.cursor.max;
+		if pos >= max {
+			return max
+		}
+		let start_class = self.word_class(pos, word);
+		if include_last_char && start_class != 0 {
+			let end = self.end_of_word_forward_from(pos, word, true);
+			return (end + 1).min(max)
+		}
+		let first = self.word_step_forward(pos);
+		// A word does not continue over a line break
+		let crossed_line = first != pos + 1;
+		let mut pos = first;
+		// To the end of the word we are in
+		if start_class != 0 && !crossed_line {
+			while pos < max && self.word_class(pos, word) == start_class && !self.is_empty_line_at(pos) {
+				let next = self.word_step_forward(pos);
+				let crossed_line = next != pos + 1;
+				pos = next;
+				if crossed_line {
+					break
 				}
 			}
-			Word::Normal => {
-				let Some(cur_char) = self.grapheme_at(pos).map(|c| c.to_string()) else { return default };
-				let on_boundary = 'bound_check: {
-					let Some(next_idx) = indices_iter.peek() else { break 'bound_check false };
-					!is_whitespace(&cur_char) && self.grapheme_at(*next_idx).is_some_and(|c| is_other_class_or_is_ws(c, &cur_char))
-				};
-				if on_boundary {
-					let next_idx = indices_iter.next().unwrap();
-					pos = next_idx
-				}
-
-				// Check current grapheme
-				let Some(cur_char) = self.grapheme_at(pos).map(|c| c.to_string()) else {
-					return default
-				};
-				let on_whitespace = is_whitespace(&cur_char);
-
-				// Proceed to next visible grapheme
-				if on_whitespace {
-					let Some(non_ws_pos) = indices_iter.find(|i| self.grapheme_at(*i).is_some_and(|c| !is_whitespace(c))) else {
-						return default
-					};
-					pos = non_ws_pos
-				}
-
-				let Some(cur_char) = self.grapheme_at(pos).map(|c| c.to_string()) else {
-					return self.grapheme_indices().len()
-				};
-				// The position of the next differing character class will tell us where the start of the word is
-				let Some(next_ws_pos) = indices_iter.find(|i| self.grapheme_at(*i).is_some_and(|c| is_other_class_or_is_ws(c, &cur_char))) else {
-					return default
-				};
-				pos = next_ws_pos;
-
-				if pos == 0 {
-					// We reached the start of the buffer
-					pos
-				} else {
-					// We hit some other character class, so we go back one
-					pos + 1
-				}
+		}
+		// Over the blanks that follow; an empty line stops the search
+		while pos < max && self.word_class(pos, word) == 0 {
+			if self.is_empty_line_at(pos) {
+				break
 			}
+			pos = self.word_step_forward(pos);
+		}
+		pos
+	}
+	/// `ge` / `gE`: the end of the previous word. Returns 0 when the text starts first.
+	pub fn end_of_word_backward(&mut self, pos: usize, word: Word, _include_last_char: bool) -> usize {
+		let start_class = self.word_class(pos, word);
+		let from = pos.min(self.cursor.max);
+		let Some(mut pos) = self.word_step_backward(from) else {
+			return 0
+		};
+		// A word does not continue over a line break
+		let mut crossed_line = pos + 1 != from;
+		// To before the start of the word we are in
+		if start_class != 0 {
+			while !crossed_line && self.word_class(pos, word) == start_class && !self.is_empty_line_at(pos) {
+				let Some(prev) = self.word_step_backward(pos) else { return 0 };
+				crossed_line = prev + 1 != pos;
+				pos = prev;
+			}
+		}
+		// Over the blanks before it; an empty line stops the search
+		while self.word_class(pos, word) == 0 {
+			if self.is_empty_line_at(pos) {
+				break
+			}
+			let Some(prev) = self.word_step_backward(pos) else { return 0 };
+			pos = prev;
+		}
+		pos
+	}
+	/// `e` / `E`: the end of the word we are in, or of the next one when we are already there
+	pub fn end_of_word_forward(&mut self, pos: usize, word: Word) -> usize {
+		self.end_of_word_forward_from(pos, word, false)
+	}
+	/// With `stay_on_end`, the end of a word counts for itself (that is what `cw` needs)
+	fn end_of_word_forward_from(&mut self, start: usize, word: Word, stay_on_end: bool) -> usize {
+		let max = self.cursor.max;
+		if start >= max {
+			return max
+		}
+		let start_class = self.word_class(start, word);
+		let mut pos = self.word_step_forward(start);
+		if pos >= max {
+			// Nothing after this character
+			return start
+		}
+		if pos == start + 1 && self.word_class(pos, word) == start_class && start_class != 0 && !self.is_empty_line_at(pos) {
+			// In the middle of a word: just to its end
+		} else if !stay_on_end || start_class == 0 {
+			// At the end of a word: over the blanks (empty lines too) to the next one
+			let mut last = pos;
+			while pos < max && self.word_class(pos, word) == 0 {
+				last = pos;
+				pos = self.word_step_forward(pos);
+			}
+			if pos >= max {
+				// No further word: as far as the text goes
+				return last
+			}
+		} else {
+			return start
+		}
+		let class = self.word_class(pos, word);
+		let mut last = pos;
+		while pos < max && self.word_class(pos, word) == class && !self.is_empty_line_at(pos) {
+			last = pos;
+			let next = self.word_step_forward(pos);
+			// A word does not continue over a line break
+			if next != pos + 1 {
+				break
+			}
+			pos = next;
+		}
+		last
+	}
+	/// `b` / `B`: the start of the word we are in, or of the previous one when we are already there
+	pub fn start_of_word_backward(&mut self, pos: usize, word: Word) -> usize {
+		let Some(mut pos) = self.word_step_backward(pos.min(self.cursor.max)) else {
+			return 0
+		};
+		// Over the blanks before us; an empty line stops the search
+		while self.word_class(pos, word) == 0 {
+			if self.is_empty_line_at(pos) {
+				return pos
+			}
+			let Some(prev) = self.word_step_backward(pos) else { return 0 };
+			pos = prev;
+		}
+		// To the start of this word
+		let class = self.word_class(pos, word);
+		loop {
+			let Some(prev) = self.word_step_backward(pos) else { return pos };
+			// A word does not continue over a line break
+			if prev + 1 != pos || self.word_class(prev, word) != class || self.is_empty_line_at(prev) {
+				return pos
+			}
+			pos = prev;
 		}
 	}
 	fn grapheme_index_for_display_col(&self, line: &str, target_col: usize) -> usize {
@@ -2543,7 +2381,15 @@ impl LineBuf {
 				let include_last_char = verb == Some(&Verb::Change) &&
 					matches!(motion.1, Motion::WordMotion(To::Start, _, Direction::Forward));
 
-				let pos = self.dispatch_word_motion(count, to, word, dir, include_last_char);
+				let mut pos = self.dispatch_word_motion(count, to, word, dir, include_last_char);
+				if verb.is_some() && to == To::Start && dir == Direction::Forward {
+					// With an operator, a 'w' that would end at the first column of a later line
+					// ends at the end of the line before: 'dw' on the last word of a line does not join lines
+					let target = pos.min(self.cursor.max);
+					if target > self.cursor.get() && target > 0 && self.grapheme_at(target - 1) == Some("\n") {
+						pos = target - 1;
+					}
+				}
 				let pos = ClampedUsize::new(pos,self.cursor.max,false);
 				// End-based operations must include the last character
 				// But the cursor must also stop just before it when moving
